@@ -135,16 +135,32 @@ func (t WebsocketTransport) Ping() error {
 }
 
 func (t *WebsocketTransport) Read(p []byte) (int, error) {
+	// What was received before the transport was closed is delivered first: when both are ready, select picks
+	// at random and would drop messages that are waiting in the queue.
+	select {
+	case data := <-t.queue:
+		return t.deliver(p, data)
+	default:
+	}
 	select {
 	case <-t.closeCtx.Done():
+		select {
+		case data := <-t.queue:
+			return t.deliver(p, data)
+		default:
+		}
 		return 0, t.closeCtx.Err()
 	case data := <-t.queue:
-		if t.logFile != nil && len(data) > 0 {
-			_, _ = fmt.Fprintf(t.logFile, "RECV:\n%s\n\n", data)
-		}
-		copy(p, data)
-		return len(data), nil
+		return t.deliver(p, data)
 	}
+}
+
+func (t *WebsocketTransport) deliver(p []byte, data []byte) (int, error) {
+	if t.logFile != nil && len(data) > 0 {
+		_, _ = fmt.Fprintf(t.logFile, "RECV:\n%s\n\n", data)
+	}
+	copy(p, data)
+	return len(data), nil
 }
 
 func (t WebsocketTransport) Write(p []byte) (int, error) {
